@@ -78,6 +78,13 @@ impl Caps {
         let refs: Vec<&str> = caps.iter().map(String::as_str).collect();
         mem::hello(&refs, "4")
     }
+    /// the same capabilities, with `fillers` YANG module capabilities listed between :base:1.0 and the rest
+    pub fn long_hello(self, fillers: usize) -> String {
+        let short = self.hello();
+        let filler: String = (0..fillers).map(|i| format!("<capability>urn:example:yang:module-{i}?module=module-{i}&amp;revision=2020-01-{:02}</capability>", i % 28 + 1)).collect();
+        let first_end = short.find("</capability>").map_or(0, |i| i + "</capability>".len());
+        format!("{}{filler}{}", &short[..first_end], &short[first_end..])
+    }
     pub fn describe(self) -> Vec<String> {
         let mut v: Vec<String> = CAP_NAMES.iter().enumerate().filter(|(i, _)| self.bits & (1 << i) != 0).map(|(_, n)| n.rsplit(':').nth(1).unwrap_or(n).to_string() + ":" + n.rsplit(':').next().unwrap_or("")).collect();
         if self.url != 0 {
@@ -164,6 +171,10 @@ pub enum Recipe {
     Validate(Option<Ds>),
     KillSession,
     Junos(&'static str),
+    /// a builder that is finished without one of its required calls (0: edit-config without target, 1: copy-config
+    /// without target, 2: copy-config without source, 3: delete-config without target, 4: lock without target,
+    /// 5: get-config without source, 6: validate without source, 7: edit-config without config / url)
+    Incomplete(u8),
 }
 
 /// Some(true): must be sent; Some(false): must fail locally, nothing sent; None: the RFC leaves it open
@@ -230,7 +241,107 @@ pub fn required(r: &Recipe, c: Caps) -> Option<bool> {
         Recipe::Validate(src) => Some(validate_any && src.map_or(true, |s| s.source(c))),
         Recipe::KillSession => Some(true),
         Recipe::Junos(_) => Some(c.has(JUNOS)),
+        // failing locally is the expected outcome; if something is sent after all, the wire-level rule judges it
+        Recipe::Incomplete(_) => None,
     }
+}
+
+/// What a request that actually reached the wire uses, judged from its XML alone (independent of the recipe):
+/// Some(false) = it uses something the capabilities do not permit; None = the RFC leaves it open.
+pub fn wire_permits(xml: &str, c: Caps) -> Option<bool> {
+    let doc = xml.strip_suffix(mem::MARKER).unwrap_or(xml);
+    let rpc = crate::junos::parse_xml(doc).ok()?;
+    let op = rpc.children.first()?;
+    let validate_any = c.has(VAL10) || c.has(VAL11);
+    let cc_any = c.has(CC10) || c.has(CC11);
+    // (datastore or url) of a <source> / <target> element
+    let place = |name: &str| -> Option<(Option<String>, Option<String>)> {
+        let el = op.child(name)?;
+        if let Some(u) = el.child("url") {
+            return Some((None, Some(u.text.clone())));
+        }
+        el.children.first().map(|d| (Some(d.name.clone()), None))
+    };
+    let url_ok = |u: &str| c.url_ok(u.split(':').next().unwrap_or(""));
+    let readable = |ds: &str| match ds {
+        "running" => true,
+        "candidate" => c.has(CANDIDATE),
+        "startup" => c.has(STARTUP),
+        _ => true, // <config> etc.
+    };
+    let writable = |ds: &str| match ds {
+        "running" => c.has(WRITABLE),
+        "candidate" => c.has(CANDIDATE),
+        "startup" => c.has(STARTUP),
+        _ => false,
+    };
+    let filter_ok = op.child("filter").map_or(true, |f| f.attr("type") != Some("xpath") || c.has(XPATH));
+    let src_ok = |p: Option<(Option<String>, Option<String>)>| match p {
+        Some((Some(ds), _)) => readable(&ds),
+        Some((_, Some(u))) => url_ok(&u),
+        _ => true,
+    };
+    Some(match op.name.as_str() {
+        "get" => filter_ok,
+        "get-config" => filter_ok && src_ok(place("source")),
+        "edit-config" => {
+            let mut ok = match place("target") {
+                Some((Some(ds), _)) if ds == "startup" && c.has(STARTUP) => return None,
+                Some((Some(ds), _)) => writable(&ds),
+                _ => false,
+            };
+            if let Some(u) = op.child("url") {
+                ok &= url_ok(&u.text);
+            }
+            if let Some(t) = op.child("test-option") {
+                match t.text.trim() {
+                    "test-only" => ok &= c.has(VAL11),
+                    "test-then-set" if !validate_any => return None,
+                    _ => ok &= validate_any,
+                }
+            }
+            if op.child("error-option").is_some_and(|e| e.text.trim() == "rollback-on-error") {
+                ok &= c.has(ROLLBACK);
+            }
+            ok
+        }
+        "copy-config" => {
+            let t = match place("target") {
+                Some((Some(ds), _)) => writable(&ds),
+                Some((_, Some(u))) => url_ok(&u),
+                _ => false,
+            };
+            t && src_ok(place("source"))
+        }
+        "delete-config" => match place("target") {
+            Some((Some(ds), _)) if ds == "running" => false,
+            Some((Some(ds), _)) if ds == "candidate" => {
+                if c.has(CANDIDATE) {
+                    return None;
+                }
+                false
+            }
+            Some((Some(ds), _)) => writable(&ds),
+            Some((_, Some(u))) => url_ok(&u),
+            _ => false,
+        },
+        "lock" | "unlock" => src_ok(place("target")),
+        "commit" => {
+            let mut ok = c.has(CANDIDATE);
+            if op.child("confirmed").is_some() || op.child("confirm-timeout").is_some() {
+                ok &= cc_any;
+            }
+            if op.child("persist").is_some() || op.child("persist-id").is_some() {
+                ok &= c.has(CC11);
+            }
+            ok
+        }
+        "cancel-commit" => c.has(CC11),
+        "discard-changes" => c.has(CANDIDATE),
+        "validate" => validate_any && src_ok(place("source")),
+        "kill-session" | "close-session" => true,
+        _ => c.has(JUNOS),
+    })
 }
 
 /// capabilities the verdict for this recipe can depend on
@@ -248,6 +359,7 @@ fn relevant(r: &Recipe) -> (u16, bool) {
         Recipe::Validate(_) => (VAL10 | VAL11 | CANDIDATE | STARTUP, false),
         Recipe::KillSession => (0, false),
         Recipe::Junos(_) => (JUNOS, false),
+        Recipe::Incomplete(_) => (WRITABLE | CANDIDATE | STARTUP | VAL10, false),
     }
 }
 
@@ -301,6 +413,9 @@ pub fn recipes() -> Vec<Recipe> {
     for j in ["open-private", "open-ephemeral", "open-ephemeral-instance", "close", "lock", "unlock", "commit", "commit-confirmed", "load-text"] {
         v.push(Recipe::Junos(j));
     }
+    for k in 0..8 {
+        v.push(Recipe::Incomplete(k));
+    }
     v
 }
 
@@ -321,7 +436,12 @@ fn filter_of(f: Flt) -> Option<Filter> {
 
 /// Execute the recipe on a fresh session advertising `caps`. Ok(true) = request reached the wire.
 pub fn execute(r: &Recipe, caps: Caps) -> Result<bool, String> {
-    let mut env = establish(&caps.hello()).map_err(|e| format!("establish: {e}"))?;
+    execute_on(r, &caps.hello()).map(|(sent, _)| sent)
+}
+
+/// as `execute`, with the server hello given and the text of the request that reached the wire returned
+pub fn execute_on(r: &Recipe, hello: &str) -> Result<(bool, Option<String>), String> {
+    let mut env = establish(hello).map_err(|e| format!("establish: {e}"))?;
     let before = env.wire.sent_count();
     macro_rules! go {
         ($op:ty, $build:expr) => {{
@@ -392,13 +512,24 @@ pub fn execute(r: &Recipe, caps: Caps) -> Result<bool, String> {
             "commit-confirmed" => go!(CommitConfiguration, |b| b.confirmed(true).with_log_message("x").finish()),
             _ => go!(LoadConfiguration<_>, |b| b.source(Config::new("system { }", Text, Merge)).finish()),
         },
+        Recipe::Incomplete(k) => match k {
+            0 => go!(EditConfig<Opaque>, |b| b.config(Opaque::from("<configuration/>")).finish()),
+            1 => go!(CopyConfig, |b| b.source(Datastore::Running)?.finish()),
+            2 => go!(CopyConfig, |b| b.target(Datastore::Candidate)?.finish()),
+            3 => go!(DeleteConfig, |b| b.finish()),
+            4 => go!(Lock, |b| b.finish()),
+            5 => go!(GetConfig<Opaque>, |b| b.finish()),
+            6 => go!(Validate, |b| b.finish()),
+            _ => go!(EditConfig<Opaque>, |b| b.target(Datastore::Candidate)?.finish()),
+        },
     };
     let sent = env.wire.sent_count() > before;
+    let text = sent.then(|| env.wire.sent_text(before).unwrap_or_default());
     match (res.is_ok(), sent) {
-        (true, true) => Ok(true),
-        (false, false) => Ok(false),
+        (true, true) => Ok((true, text)),
+        (false, false) => Ok((false, None)),
         (true, false) => Err("rpc() reported success but nothing was handed to the transport".into()),
-        (false, true) => Ok(true), // sent although the call reported a failure: counts as sent
+        (false, true) => Ok((true, text)), // sent although the call reported a failure: counts as sent
     }
 }
 
@@ -448,6 +579,7 @@ fn class(r: &Recipe) -> String {
         Recipe::Validate(s) => format!("validate:{}", s.map_or("config".into(), |s| format!("{s:?}"))),
         Recipe::KillSession => "kill-session".into(),
         Recipe::Junos(j) => format!("junos:{j}"),
+        Recipe::Incomplete(k) => format!("incomplete-builder:{k}"),
     }
 }
 
@@ -469,7 +601,14 @@ pub fn run(report: &mut Report) {
             for caps in cap_sets(r, thorough) {
                 evals += 1;
                 let want = required(r, caps);
-                let got = execute(r, caps);
+                let got_full = execute_on(r, &caps.hello());
+                // whatever reached the wire is judged once more from its own content
+                if let Ok((true, Some(text))) = &got_full {
+                    if wire_permits(text, caps) == Some(false) && bad.iter().filter(|b| b.key.contains("wire-content")).count() < 2 {
+                        bad.push(Bad { key: format!("C09:sent-without-capability:wire-content:{}", class(r)), what: format!("the request that reached the wire uses something the advertised capabilities do not permit: {text}"), case: json!({"request": format!("{r:?}"), "capabilities": caps.describe(), "sent": text}) });
+                    }
+                }
+                let got = got_full.map(|(sent, _)| sent);
                 match (want, got) {
                     (_, Err(e)) => {
                         if bad.len() < 3 {
@@ -495,7 +634,35 @@ pub fn run(report: &mut Report) {
             (evals, decided, open, bad)
         })
         .collect();
+    // the same capabilities inside a long hello (a YANG-heavy server lists hundreds of module capabilities before the
+    // standard ones): every recipe against the full capability set and against the empty one
+    let long: Vec<(u64, Vec<Bad>)> = recipes
+        .par_iter()
+        .map(|r| {
+            let mut bad = Vec::new();
+            let mut n = 0u64;
+            for fillers in if thorough { vec![255usize, 256, 257, 1000, 5000] } else { vec![300usize, 2000] } {
+                for caps in [Caps { bits: 0x7ff, url: 7 }, Caps { bits: 0, url: 0 }] {
+                    n += 1;
+                    let want = required(r, caps);
+                    match (want, execute_on(r, &caps.long_hello(fillers))) {
+                        (_, Err(e)) => bad.push(Bad { key: format!("C09:harness-or-session-failure:long-hello:{}", class(r)), what: e, case: json!({"request": format!("{r:?}"), "capabilities": caps.describe(), "module_capabilities_before_the_standard_ones": fillers}) }),
+                        (Some(w), Ok((g, _))) if w != g => bad.push(Bad { key: format!("C09:{}:long-hello:{}", if g { "sent-without-capability" } else { "rejected-although-permitted" }, class(r)), what: format!("with {fillers} module capabilities listed before the standard ones the verdict changes: sent={g}, the capabilities say {w}"), case: json!({"request": format!("{r:?}"), "capabilities": caps.describe(), "module_capabilities_before_the_standard_ones": fillers}) }),
+                        _ => {}
+                    }
+                }
+            }
+            bad.truncate(2);
+            (n, bad)
+        })
+        .collect();
     let (mut evals, mut decided, mut open) = (0u64, 0u64, 0u64);
+    for (n, bad) in long {
+        evals += n;
+        for b in bad {
+            report.violation(&b.key, &b.what, b.case);
+        }
+    }
     for (e, d, o, bad) in results {
         evals += e;
         decided += d;
